@@ -79,6 +79,14 @@ FIRST_MISSED = {
     'c14-k': 'texts longer than 2**16 characters',
     'c18-l': 'runs of white-space-only lines (FF, VT, NBSP), also after / inside the gap of an instruction description',
     'c19-i': 'part Z: `timeout = 0` decided by the M2 record (workload of C11 kind zero)',
+    # round 6: four more single-site mutations per property, away from the first that comes to mind
+    'c04-o': 'ending `hard_act_exec` (the OS cannot start the action): a file result/exit-code holds an exit code',
+    'c06-n': 'defect `quoted_operator`: an operator, `!` or parenthesis inside quotes is a string',
+    'c07-p': 'empty instruction descriptions',
+    'c10-m': 'a third of the cases set act-home apart from home, the files of the same names having other contents',
+    'c12-o': 'kind E: destinations that are a relativity alone (empty suffix) denote the root of that relativity',
+    'c12-p': 'kind E: path arguments of exists / contents / dir-contents after a cd (default: current directory)',
+    'c15-n': 'literal cases: dir-contents-of onto a directory that already holds one of the names (clash = HARD_ERROR)',
 }
 
 
@@ -99,9 +107,9 @@ def main():
     n = len(rows)
     k = sum(1 for r in rows if r[3] == 'missed')
     print()
-    print('%d changes; first pass: %d caught, %d missed; by round (a/b, c/d, e/f, g/h, i-l): %s' % (
+    print('%d changes; first pass: %d caught, %d missed; by round (a/b, c/d, e/f, g/h, i-l, m-p): %s' % (
         n, n - k, k, ', '.join('%d/%d' % (sum(1 for r in rows if r[0][4] in ab and r[3] == 'caught'),
-                                          sum(1 for r in rows if r[0][4] in ab)) for ab in ('ab', 'cd', 'ef', 'gh', 'ijkl'))))
+                                          sum(1 for r in rows if r[0][4] in ab)) for ab in ('ab', 'cd', 'ef', 'gh', 'ijkl', 'mnop'))))
 
 
 if __name__ == '__main__':
